@@ -38,3 +38,7 @@ pub assume_specification<T: Ord, A: core::alloc::Allocator>[ <Vec<T, A> as Ord>:
 
 // A12: `Ordering == Ordering` is structural equality
 pub assume_specification[ <Ordering as PartialEq>::eq ](a: &Ordering, b: &Ordering) -> (r: bool) ensures r == (*a == *b);
+// A5: `String`'s Ord / Eq are lexicographic order / equality of the code point sequence (UTF-8 is order preserving); only reached
+// when Identifier's ordering is written by hand instead of derived
+pub assume_specification[ <String as Ord>::cmp ](a: &String, b: &String) -> (r: Ordering)
+    ensures r == str_cmp(a@, b@);
